@@ -200,6 +200,11 @@ MidS == {[k |-> "bin", op |-> "+", l |-> K(I(2)), r |-> K(I(2))], [k |-> "bin", 
          [k |-> "call", f |-> "len", args |-> <<K(S("True"))>>, kw |-> <<>>], [k |-> "call", f |-> "int", args |-> <<K(S("10"))>>, kw |-> <<<<"base", K(I(2))>>>>]}
 D2 == Over(Small \cup MidS)
 AllPrograms == Programs \cup D2
+(* thorough tier: every form over all leaves, the float leaves and the second-level programs (about 35 operands) *)
+DeepBase == Leaves \cup MidS \cup {K(Fl(-30)), K(Fl(2)), K(Fl(8)), K(Fl(10)), K(I(-7))}
+            \cup {[k |-> "bin", op |-> "/", l |-> K(I(3)), r |-> K(I(2))], [k |-> "bin", op |-> "%", l |-> K(Fl(-30)), r |-> K(I(2))],
+                  [k |-> "call", f |-> "round", args |-> <<K(Fl(10))>>, kw |-> <<>>], [k |-> "cmp", ops |-> <<"<", "<">>, xs |-> <<K(I(1)), K(I(3)), K(I(2))>>]}
+DeepPrograms == AllPrograms \cup Over(DeepBase)
 (* ------------------------------ C01: constructs outside the allowed subset, in evaluated and unevaluated positions ------------------------------ *)
 ForbKinds == {"Attribute", "AttributeCall", "Subscript", "Lambda", "LambdaCall", "ListComp", "SetComp", "DictComp", "GeneratorExp", "JoinedStr",
               "UnknownName", "DeniedName", "DeniedCall", "CallOfCall", "Starred", "Await", "Yield", "NamedExpr", "Slice", "Import", "BigAttrChain"}
